@@ -1,1 +1,53 @@
-From Verif Require Import Base.
+(* C09 — state-dependent message handling follows RFC 4271 8.2.2 / RFC 6608. *)
+From Verif Require Import Base Consts Packet PacketSpec Conn ConnProofs.
+
+(* every (state, message) pair that is not legal progress and not a NOTIFICATION: exactly
+   NOTIFICATION (FSM Error, subcode 1/2/3 for OpenSent/OpenConfirm/Established, data = the
+   message's type octet), then close (and OnClose if Established), back to Idle *)
+Theorem c09_unexpected_message : forall cf pl st m,
+  live (c_phase st) = true -> legal (c_phase st) m = false -> (forall n, m <> MNotif n) ->
+  let n := mkNotif 5 (state_sub (c_phase st)) [msg_type m] in
+  conn_step cf pl st (IRd (RMsg m)) =
+  (mkC PDone (c_holdns st) (c_nupd st),
+   [AWrite (notif_encode n)] ++ teardown (c_phase st) ++ [AReturn 1 (ENotifOut n)]).
+Proof. exact unexpected_message. Qed.
+Print Assumptions c09_unexpected_message.
+
+(* the legal pairs are exactly OPEN/OpenSent, KEEPALIVE/OpenConfirm, KEEPALIVE+UPDATE/Established *)
+Theorem c09_legal_table : forall ph m,
+  legal ph m = true <->
+  (ph = POpenSent /\ (exists o, m = MOpen o)) \/ (ph = POpenConfirm /\ m = MKeepalive)
+  \/ (ph = PEstablished /\ (m = MKeepalive \/ exists b, m = MUpdate b)).
+Proof.
+  intros ph m. destruct ph, m; cbn; split; intros H; try discriminate; try reflexivity;
+    try (destruct H as [[? ?]|[[? ?]|[? ?]]]; try discriminate; fail);
+    eauto 7.
+  all: destruct H as [[H1 [x H2]]|[[H1 H2]|[H1 [H2|[x H2]]]]]; discriminate.
+Qed.
+Print Assumptions c09_legal_table.
+
+Theorem c09_notification_received : forall cf pl st n,
+  live (c_phase st) = true ->
+  conn_step cf pl st (IRd (RMsg (MNotif n))) =
+  (mkC PDone (c_holdns st) (c_nupd st), teardown (c_phase st) ++ [AReturn 1 (ENotifIn n)]).
+Proof. exact notification_received. Qed.
+Print Assumptions c09_notification_received.
+
+Theorem c09_notification_no_reply : forall cf pl st n,
+  live (c_phase st) = true -> writes (snd (conn_step cf pl st (IRd (RMsg (MNotif n))))) = [].
+Proof. exact notification_received_silent. Qed.
+Print Assumptions c09_notification_no_reply.
+
+Theorem c09_tcp_failure_silent : forall cf pl st,
+  live (c_phase st) = true ->
+  writes (snd (conn_step cf pl st (IRd RErrIO))) = []
+  /\ c_phase (fst (conn_step cf pl st (IRd RErrIO))) = PDone.
+Proof. exact tcp_failure_silent. Qed.
+Print Assumptions c09_tcp_failure_silent.
+
+(* OnClose exactly once for an Established session, whatever happens (callback monitor) *)
+Theorem c09_onclose_once : forall cf pl ins,
+  exists m', mon_run (false, 0) (snd (conn_run cf pl cinit ins)) = Some m'
+             /\ (c_phase (fst (conn_run cf pl cinit ins)) = PDone -> snd m' <> 1).
+Proof. exact callbacks_wellformed. Qed.
+Print Assumptions c09_onclose_once.
